@@ -13,6 +13,10 @@ impl<'a> WriteableGraph for EngineWriteTxn<'a> {
             .map_err(|e| Error::Other(e.to_string()))
     }
 
+    fn pending_relationships_of(&self, node: InternalNodeId) -> Vec<nervusdb_api::EdgeKey> {
+        EngineWriteTxn::pending_edges_of(self, node)
+    }
+
     fn external_id_in_use(&self, external_id: ExternalId) -> bool {
         EngineWriteTxn::external_id_in_use(self, external_id)
     }
